@@ -18,7 +18,9 @@ STATE = ("flags", "res", "events", "count", "active", "pri")
 FIELD = {"flags": "event_callback.evcb_flags", "res": "event.ev_res", "events": "event.ev_events", "pri": "event_callback.evcb_pri"}
 BASEF = {"count": "event_base.event_count", "active": "event_base.event_count_active", "count_max": "event_base.event_count_max",
          "active_max": "event_base.event_count_active_max", "running_pri": "event_base.event_running_priority", "continue": "event_base.event_continue",
-         "virtual": "event_base.virtual_event_count"}
+         "virtual": "event_base.virtual_event_count", "running_loop": "event_base.running_loop", "owner": "event_base.th_owner_id",
+         "lock": "event_base.th_base_lock", "current": "event_base.current_event", "waiters": "event_base.current_event_waiters",
+         "notify_pending": "event_base.is_notify_pending", "cond": "event_base.current_event_cond"}
 
 
 class Binding(object):
@@ -99,10 +101,14 @@ class Machine(object):
     NOTABLE = ("evthread_notify_base", "evmap_io_add_", "evmap_signal_add_", "evmap_io_del_", "evmap_signal_del_", "min_heap_push_", "min_heap_erase_",
                "insert_common_timeout_inorder", "common_timeout_schedule", "min_heap_adjust_")
 
-    def __init__(self, P):
+    NOTABLE_SLOTS = {"evthread_condition_callbacks.wait_condition": "COND_WAIT", "evthread_condition_callbacks.signal_condition": "COND_SIGNAL"}
+
+    def __init__(self, P, thread_id=None, globals_=None):
         self.P = P
+        self.globals = dict(globals_ or {})
         self.memo = {}
         self.bind = {}
+        self.thread_id = thread_id      # value returned by (*evthread_id_fn_)() when the rule wants to fix "which thread calls"
 
     def binding(self, name):
         if name not in self.bind:
@@ -132,11 +138,14 @@ class Machine(object):
             env.update(extra)
         env["event_debug_logging_mask_"] = 0
         env["event_debug_mode_on_"] = 0
+        env.update(self.globals)
         M = self
 
         def hook(el, env_):
             n = callee_name(el.e)
             if n is None:
+                if el.e[1][0] == "ptr" and M.thread_id is not None and any(is_e(q, "var") and q[1] == "evthread_id_fn_" for q in walk(el.e[1])):
+                    return M.thread_id
                 return None
             if n in M.MODELLED and P.has(n):
                 cur = b.read(env_, list(st.keys()), st)
@@ -181,6 +190,9 @@ class Machine(object):
                 n = callee_name(el.e)
                 if n in M.NOTABLE or n in M.MODELLED:
                     return n
+                sl = el.e[1][1] if el.e[1][0] == "slot" else None
+                if sl in M.NOTABLE_SLOTS:
+                    return M.NOTABLE_SLOTS[sl]
             elif el.mac and el.mac[-1].startswith(("TAILQ_INSERT", "TAILQ_REMOVE")):
                 return el.mac[-1]
             return None
